@@ -115,6 +115,10 @@ class UU(Model):
     def __pow__(self, e):
         return UU({k: v * Fraction(e) for k, v in self.mono.items()})
 
+    def is_compatible_with(self, other, *a, **k):
+        o = other.units if isinstance(other, QQ) else UU.parse(other)
+        return o.dims() == self.dims()
+
     def __repr__(self):
         return "UU(%s)" % ("*".join("%s^%s" % kv for kv in sorted(self.mono.items())) or "1")
 
@@ -194,6 +198,23 @@ class RawV(Model):
 
     def __neg__(self):
         return RawV(-self.r, self.dtype, self.shape)
+
+    # numpy arrays are updated in place by op=
+    def __imul__(self, o):
+        self.r = self.r * self._v(o)
+        return self
+
+    def __itruediv__(self, o):
+        self.r = self.r / self._v(o)
+        return self
+
+    def __iadd__(self, o):
+        self.r = self.r + self._v(o)
+        return self
+
+    def __isub__(self, o):
+        self.r = self.r - self._v(o)
+        return self
 
     def __getitem__(self, idx):
         if idx == () and not self.shape:
@@ -371,10 +392,97 @@ def stack_hooks(tree):
     return hk
 
 
-def arr(tree, hk, sym, unit, dtype="float64"):
+def arr(tree, hk, sym, unit, dtype="float64", shape=(3,)):
     ci = tree.cls(ARRAY_Q)
     ev = ModelEval(tree, tree.method(ci, "__init__"), {}, hk)
-    return ev.instantiate(ci, [], {"values": RawV(Poly.sym(sym), dtype) if isinstance(sym, str) else sym, "unit": unit}, None)
+    return ev.instantiate(ci, [], {"values": RawV(Poly.sym(sym), dtype, shape) if isinstance(sym, str) else sym, "unit": unit}, None)
+
+
+def vec(tree, hk, tag, unit, n=3):
+    vi = tree.cls(VECTOR_Q)
+    comps = {c: arr(tree, hk, tag + c, unit) for c in "xyz"[:n]}
+    return ModelEval(tree, tree.method(vi, "__init__"), {}, hk).instantiate(vi, [], dict(comps), None)
+
+
+def comps_of(tree, hk, v):
+    m = tree.method(v._cls, "__init__")
+    return ModelEval(tree, m, {}, hk).obj_getattr(v, "_xyz")
+
+
+def check_inplace_stack(run, tree):
+    """x op= y end to end (C17): Arrays of every rank including 0-d and empty ones stay the same object with the same buffer; a Vector's
+    components are updated in their own buffers; the right operand (Array, Vector, array-valued Quantity in another unit) denotes the same
+    quantity afterwards, so that a second x op= y adds the same amount"""
+    fi = tree.func("core/array.py::_binary_op")
+    vfi = tree.func("core/vector.py::_binary_op")
+    run.analysed(fi)
+    run.analysed(vfi)
+    A, B = rat(Poly.sym("A")), rat(Poly.sym("B"))
+    km, kcm, ks = (rat(Poly.sym("k_" + x)) for x in ("m", "cm", "s"))
+    OPS = (("+=", "__iadd__", "cm", lambda pa, pb: pa + pb), ("-=", "__isub__", "cm", lambda pa, pb: pa - pb), ("*=", "__imul__", "s", lambda pa, pb: pa * pb), ("/=", "__itruediv__", "s", lambda pa, pb: pa / pb))
+    for shape, sl in (((3,), "1-d"), ((), "0-d (scalar)"), ((0,), "empty"), ((2, 3), "2-d")):
+        for sym, dunder, ub, want in OPS:
+            construct = "core/array.py::Array[a [m] %s b [%s]; a is %s]" % (sym, ub, sl)
+            try:
+                hk = stack_hooks(tree)
+                a, b = arr(tree, hk, "A", "m", shape=shape), arr(tree, hk, "B", ub, shape=shape)
+                buf, pa, pb = a._attrs["_array"], phys(a), phys(b)
+                try:
+                    r = binop(tree, hk, a, dunder, b)
+                    ok = r is a and a._attrs["_array"] is buf and phys(a) == want(pa, pb) and phys(b) == pb
+                    detail = "returns %s; buffer %s; a denotes %r; b %s" % ("a" if r is a else "another object", "updated in place" if a._attrs["_array"] is buf else "replaced",
+                                                                            phys(a), "untouched" if phys(b) == pb else "changed to %r" % (phys(b),))
+                except (Raised, ProgramRaised) as e:
+                    ok, detail = False, "raises %s" % e
+                run.ob(construct, ok, fi.where(), detail, "x op= y rebinds x to a new object for some shapes (scalar or empty Arrays), so other references (the same Array in two Datagroups) "
+                       "do not see the update; or gives another value than x op y; or changes y")
+            except ERR as e:
+                run.unresolved(construct, fi.where(), "cannot fold: %s" % e)
+    # Vector on the left
+    for sym, dunder, ub, want in OPS:
+        for rk in ("Vector", "Array", "array-valued Quantity", "scalar Quantity"):
+            construct = "core/vector.py::Vector[v [m] %s %s [%s], twice]" % (sym, rk, ub)
+            try:
+                hk = stack_hooks(tree)
+                v = vec(tree, hk, "V", "m")
+                cs = comps_of(tree, hk, v)
+                bufs = {c: cs[c]._attrs["_array"] for c in cs}
+                p0 = {c: phys(cs[c]) for c in cs}
+                if rk == "Vector":
+                    y = vec(tree, hk, "W", ub)
+                    py = lambda: {c: phys(a_) for c, a_ in comps_of(tree, hk, y).items()}
+                elif rk == "Array":
+                    y = arr(tree, hk, "B", ub)
+                    py = lambda: {c: phys(y) for c in cs}
+                else:
+                    mag = RawV(Poly.sym("Q")) if rk.startswith("array") else 2.5
+                    y = QQ(mag, UU.parse(ub))
+                    py = lambda: {c: (y.magnitude.r if isinstance(y.magnitude, RawV) else rat(y.magnitude)) * y.units.scale() for c in cs}
+                y0 = py()
+                problems = []
+                try:
+                    cur = dict(p0)
+                    for rep in (1, 2):
+                        r = binop(tree, hk, v, dunder, y)
+                        cur = {c: want(cur[c], y0[c]) for c in cur}
+                        for who, ref in (("the result", r), ("the original reference", v)):
+                            cs2 = comps_of(tree, hk, ref)
+                            got = {c: phys(cs2[c]) for c in cs2}
+                            if any(cs2[c]._attrs["_array"] is not bufs[c] for c in cs2):
+                                problems.append("application %d: a component buffer of %s was replaced" % (rep, who))
+                            if not all(got[c] == cur[c] for c in cur):
+                                problems.append("application %d: %s denotes %r (required %r)" % (rep, who, got, cur))
+                        v = r
+                        if not all(py()[c] == y0[c] for c in y0):
+                            problems.append("application %d: the right operand now denotes %r (was %r)" % (rep, py(), y0))
+                        if problems:
+                            break
+                except (Raised, ProgramRaised) as e:
+                    problems.append("raises %s" % e)
+                run.ob(construct, not problems, vfi.where(), "; ".join(problems[:2]) or "v updated in its own buffers to v op y, twice; y denotes the same quantity throughout",
+                       "v op= q rescales the caller's Quantity/Array in place (its buffer is shared with the wrapper built for the conversion), so the second v op= q adds another amount")
+            except ERR as e:
+                run.unresolved(construct, vfi.where(), "cannot fold: %s" % e)
 
 
 def phys(a):
